@@ -43,7 +43,7 @@ CLAIMS = {
  "C13": dict(
    technique="static analysis: call-graph reachability of lock re-entry / unimplemented panics / empty stubs; per-field must-define-before-use of query scratch state; reset-completeness, options save/restore and freshness (escape) analysis over go/ssa",
    text="History independence reduced to structural conditions: no call path from a critical section re-enters the index mutex (no hang); no 'not implemented' panic or empty stub is reachable from the public API; ShapeIndex.Reset assigns every field an operation can change; every EdgeQuery field a query writes is re-assigned before it is read in the next call, reset, or a named cache; configured options are only modified through copies and restored on every exit; every Loop/Polygon creation site establishes its index and the zero-value Polygon is nil-guarded; iterators apply pending updates before reading; no package-level state is written after init.",
-   note="Trusts go/ssa and the VTA call graph; tables of argument-contract and defensive panics are confirmed by reading. Known findings D3/D18 are listed in known_findings.json. Does not decide equality of answers across histories.",
+   note="Trusts go/ssa and the VTA call graph; tables of argument-contract and defensive panics are confirmed by reading. Known findings D3/D18/D36 are listed in known_findings.json. Does not decide equality of answers across histories.",
    design="DESIGN.md section 3 R-LOCK(c)/R-PANIC/R-RESET/R-SCRATCH/R-OPTS/R-INIT/R-SYNCED/R-GLOBAL, section 4 C13"),
 
  "C06": dict(
@@ -124,7 +124,7 @@ EXTRA = {
  "C05": " Also: every CellUnionBound implementation returns storage allocated by the call (the coverer normalises it in place); no condition is tested twice in a row (R-DUP); the MaxCells merge loop of normalizeCovering replaces cells by an ancestor only behind a comparison with MinLevel; the indexed containment evaluators used by ContainsCell/IntersectsCell toggle parity only with vertex-resolving crossing tests.",
  "C06": " Also: clipUBound/clipVBound and splitUBound/splitVBound are mirror images (R-TWIN); getCellsForEdge visits every face segment; no && chain tests the same expression twice (R-DUP); Polygon.Edge and Polygon.ChainPosition contain the same edge-to-loop search (alpha-renamed syntax trees; only a leaf difference is reported), Polygon.Edge's result is ChainEdge's expression, and ShapeIndex.Reset clears every pending-update field.",
  "C07": " Also: the relation crosser restarts its edge chain exactly when the next edge id is not the previous one plus one.",
- "C08": " Also: the closest-edge and furthest-edge targets agree method by method under the min/max substitution (R-TWIN, 30 pairs); a split cell's back-step children are tested whether or not the forward seek hit the end; chord angles are never combined with the built-in + or - outside s1 (R-UNITS, three named exceptions with reasons); each updateDistanceTo* of the ShapeIndex targets assigns the persistent sub-query options' distance limit on every path before the sub-query; the priority queue, which outlives the call, is left empty on every exit of the search.",
+ "C08": " Also: the closest-edge and furthest-edge targets agree method by method under the min/max substitution (R-TWIN, 30 pairs); a split cell's back-step children are tested whether or not the forward seek hit the end; chord angles are never combined with the built-in + or - outside s1 (R-UNITS; the only exception is StraightChordAngle - x; the rule's report on minDistance.sub / maxDistance.sub was defect D32, repaired); each updateDistanceTo* of the ShapeIndex targets assigns the persistent sub-query options' distance limit on every path before the sub-query; the priority queue, which outlives the call, is left empty on every exit of the search.",
  "C09": " Also: floats read from the stream are stored unchanged (R-RAWFLOAT); no package-level scratch storage is shared between encoders (R-GLOBAL); fixed-length fields whose byte count is computed from the level have the same count in writer and reader for every level 0..30 and are wide enough (R-WIRECOUNT); the k-th receiver field written is the k-th receiver field read into (R-FIELDPAIR); Polygon.numVertices is only assigned its definition (R-DERIVED); the encoders visit every loop.",
  "C10": " Also: accumulated bounds are only ever updated from their previous value (R-ACCUM); the degenerate-normal branch of RectBounder.AddPoint assigns the full rectangle on the antipodal side; the edge normal whose length RectBounder.AddPoint tests against 1.91346e-15 is (A-B)x(A+B), the form that threshold was derived for; ConvexHullQuery.AddPolygon visits every loop.",
  "C13": " Also: re-initialisers of a polygon's derived fields start each field from a history-independent value before reading it (R-REINIT); the EdgeQuery priority queue (allocated once) is empty on every exit of the optimized search; the ShapeIndex targets give their persistent sub-query this call's limit on every path; Polygon.Invert only shifts depths.",
@@ -141,7 +141,7 @@ EXTRA6 = {
  "C05": " Round 6: ShapeIndexIterator.LocateCellID compares inclusive range ends inclusively (R-RANGE), Polygon.Invert shifts depths by one (R-PARTITION), iteratorContainsPoint reads edges with Loop.Edge's accessor.",
  "C06": " Round 6: boundaryApproxIntersects (Loop, Polygon) answers true only for an index cell that has edges (R-GUARD); searches in cumulative edge-count arrays are upper-bound searches (empty loops repeat counts); the crossing query never hands out the index's own edge slices (R-NOALIAS).",
  "C07": " Round 6: Polygon.Invert re-initialises the bound of the polygon it overwrites (R-INIT).",
- "C08": " Round 6: the conservative threshold tests move the limit in the conservative direction; initCovering adds at least one range on every path; no named result of a multi-value call is dropped and no never-assigned local is read (R-DUP e, f).",
+ "C08": " Rounds 6-7: the MaxError allowance is applied with ChordAngle.Sub/Add (D32 repaired); a twin pair whose shapes diverge must still call the same helpers under its substitution; the conservative threshold tests move the limit in the conservative direction; initCovering adds at least one range on every path; no named result of a multi-value call is dropped and no never-assigned local is read (R-DUP e, f).",
  "C09": " Round 6: no direct Read([]byte) on a reader (short reads); xyzToFaceSiTi reports a cell level only behind the exact comparison of the argument's own vector with the cell centre (R-GUARD).",
  "C10": " Round 6: a longitude plus/minus an angle becomes an interval endpoint only through math.Remainder; the same-face flags of VertexNeighbors are the tight in-face tests (they decide the fourth neighbour, on which Cap.CellUnionBound rests); a single-loop polygon resets the loop's depth.",
  "C11": " Round 6: no wrapping successor (NextWrap/PrevWrap/AdvanceWrap) is used as a range bound or in an ordered comparison; the contents iterator raises its duplicate cut-off only on the exhausted branch of Next.",
@@ -154,6 +154,64 @@ EXTRA6 = {
  "C18": " Round 6: PolygonFromOrientedLoops normalises by the absolute turning angle.",
  "C19": " Round 6: s1.Interval.Expanded returns the computed interval only after comparing it with the original (defect D29 repaired); outside package s1 no longitude interval is written as a literal from computed values (known finding D30, RectFromLatLng).",
  "C20": " Round 6: the tessellation constants fit the documented error model (scale <= min(E1(x0), E2(x0)) at x0 = 1 - 2*fraction); a ChordAngle is never scaled with the built-in * or /; no SnapPoint converts a scaled coordinate to an integer narrower than 64 bits.",
+}
+
+# sentences appended after the seventh round (DESIGN.md section 9.6)
+EXTRA7 = {
+ "C02": " Round 7: in exactCompareDistances the 'cosines of different sign' case compares the two signs with each other.",
+ "C03": " Round 7: no package-level variable is written after initialisation (R-GLOBAL; a memo in Point.referenceDir would be one).",
+ "C05": " Round 7: no method of a type with edges grows a rectangle vertex by vertex with Rect.AddPoint; Polygon.ReferencePoint's parity obligation also counts here.",
+ "C06": " Round 7: Polygon.Edge and Polygon.ChainEdge read loop vertices through the same accessor.",
+ "C07": " Round 7: Loop.findVertex returns k only behind Vertex(k) == p for that k.",
+ "C10": " Round 7: Polygon.Invert's depth bookkeeping (R-PARTITION) and the vertex-only-bound rule also count here.",
+ "C11": " Round 7: CellID.Pos() values are never compared for equality; the contents iterator compares its cut-off inclusively.",
+ "C12": " Round 7: Cell.DistanceToCell and MaxDistanceToCell update in both directions (vertices of each cell against edges of the other).",
+ "C13": " Round 7: ShapeIndexIterator.refresh assigns the cached cell on every path; Polygon.Invert's two whole-value special cases are mutually exclusive.",
+ "C15": " Round 7: a loop decoded with a vertex count of 0 becomes the empty loop (D31 repaired).",
+ "C16": " Round 7: the stable method declines on equality of distance and error sums; the exact method tests the float vector it normalises.",
+ "C17": " Round 7: interiorDist's endpoint tests are inclusive; no arc length is taken through ChordAngleBetweenPoints(...).Angle().",
+ "C18": " Round 7: no hand-written running maximum compares with a stale value (R-DUP g).",
+ "C19": " Round 7: s2.Rect.AddPoint is component-wise and its guard branches return operands unchanged; every result of Cap.Expanded takes its radius from ChordAngle.Add.",
+ "C20": " Round 7: edges longer than 90 degrees always get an infinite error estimate; ToLatLng reduces the raw x coordinate modulo xWrap.",
+}
+
+# sentences appended after the eighth round (DESIGN.md section 9.7)
+EXTRA8 = {
+ "C01": " Round 8: Pos() masks with 2^PosBits - 1; no platform-sized integer is shifted left by 31 bits or more; Cell.RectBound's axis-direction tests agree with faceUVWAxes on all six faces.",
+ "C02": " Round 8: no package-level variable is written after initialisation (lazily filled exact constants would be).",
+ "C04": " Round 8: the crosser's and the sign predicates' error constants and stableSign's bound also count here (exact crossings).",
+ "C06": " Round 8: shape ids are treated as sparse (R-SPARSEID; D34, D35 repaired, D36 EdgeIterator is a known finding); the Loop/Polygon cell-relation tables (R-CELLREL) also count here; LaxPolygon.ChainEdge wraps at the end of its own loop; getCells collects cells whenever the bounds meet.",
+ "C07": " Round 8: CrossingEdgeQuery.getCells collects cells whenever the edge's bound meets the root's bound.",
+ "C08": " Round 8: the ShapeIndex targets and the crossing query keep no state that is read before it is assigned in the same call.",
+ "C09": " Round 8: the optional bound of a compressed loop is written iff the bit of the properties word that was written says so; writeUvarint's raw single-byte path, if any, is below 128.",
+ "C10": " Round 8: ExpandForSubregions multiplies the larger pole gap with the longitude gap; Cell.RectBound's axis-direction tests agree with faceUVWAxes.",
+ "C12": " Round 8: Cell.RectBound's axis-direction tests agree with faceUVWAxes on all six faces.",
+ "C13": " Round 8: R-SCRATCH covers CrossingEdgeQuery, the ShapeIndex targets and ContainsPointQuery; shape ids are treated as sparse (R-SPARSEID).",
+ "C14": " Round 8: readers of the update cursor are held to the writers' locking discipline.",
+ "C15": " Round 8: the compressed decoder normalises a zero-vertex loop on the bound-encoded path too (D33 repaired); a tested limit is the limit its error message reports.",
+ "C16": " Round 8: cloned calls rename whole name families consistently (aLen2 with a0, a1).",
+ "C17": " Round 8: exported functions of edge_distances.go return normalised points; a diverged twin pair must still call the same helpers.",
+ "C19": " Round 8: Cap.InteriorContainsPoint answers the full cap before its strict comparison.",
+ "C20": " Round 8: no float-to-integer conversion in SnapPoint or its helpers; tessellation accepts an edge only on the error test.",
+}
+
+# sentences appended after the ninth round (DESIGN.md section 9.8)
+EXTRA9 = {
+ "C02": " Round 9: an answer taken straight from a bitwise equality test of two arguments is the neutral one (0 / false), never a sign.",
+ "C03": " Round 9: no value-receiver method stores into its receiver and drops the copy; EdgeOrVertexCrossing hands its arguments to VertexCrossing in order.",
+ "C04": " Round 9: applyUpdatesInternal calls updateFaceEdges for every face; a flag word is not compared with an ordered operator.",
+ "C05": " Round 9: in intersectsLatEdge the candidate point carries the sign of the parameter it was tested with.",
+ "C06": " Round 9: CrossingEdgeQuery.candidates walks all visited cells (left only when exhausted); the package-level-variable rule (R-GLOBAL) also counts here.",
+ "C07": " Round 9: a containment question asks WedgeContains at a shared vertex, an intersection question WedgeIntersects.",
+ "C08": " Round 9: chordAngle() values of two distances are compared only inside the distance implementations.",
+ "C09": " Round 9: asByteReader passes a reader that already reads single bytes through unchanged; a flag word is not compared with an ordered operator.",
+ "C10": " Round 9: RectBounder's nearly-identical-points fallback grows the bound only from the edge's own endpoints; no latitude is taken as asin of a coordinate.",
+ "C11": " Round 9: positions of a CellIndexRangeIterator are compared with len(rangeNodes)-1 (the sentinel is not a position).",
+ "C12": " Round 9: the distance-0 / distance-Pi shortcuts of Cell.DistanceToCell / MaxDistanceToCell are taken on Intersects; ShrinkToFit treats the i and j axes alike.",
+ "C14": " Round 9: an idle re-application of updates does no per-face work (or the status is re-read under the mutex).",
+ "C15": " Round 9: Polygon's Edge, Chain and ChainPosition measure a loop as initEdgesAndIndex did; Polyline query methods test the length before reading a constant vertex index.",
+ "C16": " Round 9: the interpolation error pairs each endpoint's distance with the other endpoint's error.",
+ "C20": " Round 9: the accepting test of the tessellator compares with scaledTolerance itself; asin(x / sin(c)) has a sine as numerator (law of sines).",
 }
 
 PENDING = "check for this property is designed (DESIGN.md section 4) but not yet built in this revision; no claim is made"
@@ -172,7 +230,7 @@ def main():
                 "evidence_file": f"/verif/evidence/{p}.json",
                 "replay_cmd_template": f"/verif/bin/s2lint -prop {p} -tier thorough -v   # re-derives the obligations listed in {{path}}",
                 "engine": "s2lint",
-                "level_claimed": {"category": "other", "text": c["text"] + EXTRA.get(p, "") + EXTRA6.get(p, ""), "design_ref": c["design"] + ", sections 9.1-9.5"},
+                "level_claimed": {"category": "other", "text": c["text"] + EXTRA.get(p, "") + EXTRA6.get(p, "") + EXTRA7.get(p, "") + EXTRA8.get(p, "") + EXTRA9.get(p, ""), "design_ref": c["design"] + ", sections 9.1-9.8"},
                 "level_note": c["note"],
                 "technique": c["technique"],
             })
